@@ -104,7 +104,8 @@ def cases(ctx):
             yield {'kind': 'd2r', 'D': s}
     for i in range(250 if not thorough else 3000):
         s = gen.random_dfa(rng, 5, rng.choice([['a', 'b'], ['a'], ['a', 'b', 'c'], ['0', '1']]),
-                           (lambda j: ['start', 'accept', 'start1', 'accept1', 'q'][j]) if i % 6 == 1 else None)
+                           (lambda j: ['start', 'accept', 'start1', 'accept1', 'q'][j]) if i % 6 == 1 else
+                           (lambda j: ['accept', 'wait', 'accept1', 'q', 'r'][j]) if i % 6 == 4 else None)
         if not thorough or ctx.mine(i):
             yield {'kind': 'd2r', 'D': s}
 
